@@ -110,6 +110,58 @@ def is_constant_offset(e):
     return True
 
 
+def _stmt_before(body, pos):
+    """(text of the statement that contains `pos` up to `pos`, text of the statement before it)"""
+    i = pos
+    depth = 0
+    while i > 0:
+        c = body[i - 1]
+        if c == ")":
+            depth += 1
+        elif c == "(":
+            if depth == 0:
+                pass
+            else:
+                depth -= 1
+        if c in ";{}" and depth == 0:
+            break
+        i -= 1
+    head = body[i:pos]
+    j = i - 1
+    while j > 0 and body[j - 1] not in ";{}":
+        j -= 1
+    prev = body[j:i]
+    return head, prev
+
+
+READ_CALL = r"\bhio_read\w*\s*\("
+
+
+def classify_eof_site(body, pos):
+    """How is this hio_eof() call used?
+      loopGuarded      loop condition; the loop body tests a read result or hio_error within its first statements
+      loopUnguarded    loop condition without such a test in the body's first statements
+      afterTestedRead  consulted right after a read whose return value is tested (a short read is detected anyway)
+      afterUntestedRead consulted right after `x = hio_readNN(f);` — true from memory after a COMPLETE read that ends
+                       at the last byte of the data (divergence D3)
+      other"""
+    head, prev = _stmt_before(body, pos)
+    if re.search(r"\b(while|for)\s*\($|\b(while|for)\s*\(", head):
+        # first statements of the loop body
+        k = body.find("{", pos)
+        first = body[k + 1:k + 400] if k >= 0 else ""
+        stmts = re.split(r";", first)[:4]
+        txt = ";".join(stmts)
+        if re.search(r"\bhio_error\s*\(", txt) or re.search(r"\bif\s*\([^;]*" + READ_CALL, txt):
+            return "loopGuarded"
+        return "loopUnguarded"
+    if re.search(READ_CALL, prev):
+        if re.match(r"\s*(if|while)\b", prev) or re.search(READ_CALL + r"[^;]*\)\s*(!=|==|<|>)", prev):
+            return "afterTestedRead"
+        return "afterUntestedRead"
+    return "other"
+
+
 def role_of(func):
     if func.endswith("_test"):
         return "formatTest"
@@ -121,6 +173,7 @@ def role_of(func):
 def scan():
     src_root = os.path.join(vlib.REPO, "src")
     users, divs, formats, comp_funcs, calls, func_file = set(), {}, {}, set(), {}, {}
+    eof_sites, iff_files = {}, set()
     for root, dirs, files in os.walk(src_root):
         dirs.sort()
         rel_root = os.path.relpath(root, src_root)
@@ -145,6 +198,12 @@ def scan():
                     users.add((rel, name, "underlyingMemory", role_of(name)))
                 if re.search(r"(->|\.)\s*handle\s*(\.|\))", body):
                     users.add((rel, name, "handleField", role_of(name)))
+                if rel.startswith(("loaders" + os.sep, "depackers" + os.sep)):
+                    for em in re.finditer(r"\bhio_eof\s*\(", body):
+                        kind = classify_eof_site(body, em.start())
+                        eof_sites[(rel, name, kind)] = eof_sites.get((rel, name, kind), 0) + 1
+                if in_loaders and re.search(r"\blibxmp_iff_load\s*\(", body):
+                    iff_files.add(rel)
                 if rel.startswith("depackers"):
                     continue
                 if in_loaders or os.sep not in rel:
@@ -194,7 +253,7 @@ def scan():
                 comp_names.add(name)
                 changed = True
     comp_files = {rel for (rel, name) in calls if name in comp_names}
-    return users, divs, formats, sorted(comp_files)
+    return users, divs, formats, sorted(comp_files), eof_sites, sorted(iff_files)
 
 
 def lean_str(s):
@@ -202,7 +261,7 @@ def lean_str(s):
 
 
 def generate():
-    users, divs, formats, comp_files = scan()
+    users, divs, formats, comp_files, eof_sites, iff_files = scan()
     users = sorted(users)
     div_items = sorted(divs.items())
     L = []
@@ -250,6 +309,46 @@ def generate():
     L.append("/-- nothing reaches into the union `h->handle` directly -/")
     L.append("theorem hioUsers_no_field : hioUsers.all (fun u => u.kind != .handleField) = true := by decide")
     L.append("")
+    L.append("inductive EofUse where")
+    L.append("  | loopGuarded | loopUnguarded | afterTestedRead | afterUntestedRead | other")
+    L.append("  deriving DecidableEq, Repr")
+    L.append("")
+    L.append("structure EofSite where")
+    L.append("  file : String")
+    L.append("  func : String")
+    L.append("  use : EofUse")
+    L.append("  count : Nat")
+    L.append("  deriving DecidableEq, Repr")
+    L.append("")
+    L.append("/-- every `hio_eof` call in src/loaders and src/depackers by file, function and kind of use:")
+    L.append("`afterTestedRead` = right after a read whose return value is tested (inside the discipline of")
+    L.append("`Xmp.Stream.EofGuarded`), `afterUntestedRead` = right after `x = hio_readNN(f);` (true from memory after a")
+    L.append("complete read ending at the last byte: divergence D3), `loopGuarded`/`loopUnguarded` = loop condition")
+    L.append("with/without a tested read or `hio_error` at the head of the loop body -/")
+    L.append("def eofSites : List EofSite := [")
+    L.append(",\n".join("  { file := %s, func := %s, use := .%s, count := %d }" % (lean_str(f), lean_str(fn), k, c)
+                        for ((f, fn, k), c) in sorted(eof_sites.items())))
+    L.append("]")
+    L.append("")
+    L.append("/-- the reviewed uses (file, function, kind, at most so many): a `hio_eof` call anywhere else, of another")
+    L.append("kind, or one more of them in a listed function breaks `eofSites_known`.")
+    L.append("* arch_test, med4_load: chunk loops whose body stops on `hio_error` / a tested header read;")
+    L.append("* libxmp_iff_load: the body is `iff_chunk`, which tests every header read.")
+    L.append("  (mmd1_load / mmd3_load used to test `hio_eof` right after `smplarr[i] = hio_read32b(f)`: finding")
+    L.append("  `entry:mmd1:load-rc`, repaired; no `afterUntestedRead` use is allowed any more.) -/")
+    L.append("def allowedEof : List (String × String × EofUse × Nat) := [")
+    L.append("  (\"loaders/arch_load.c\", \"arch_test\", .loopGuarded, 1),")
+    L.append("  (\"loaders/med4_load.c\", \"med4_load\", .loopGuarded, 1),")
+    L.append("  (\"loaders/iff.c\", \"libxmp_iff_load\", .loopUnguarded, 1)]")
+    L.append("")
+    L.append("def eofAllowed (e : EofSite) : Bool :=")
+    L.append("  allowedEof.any fun (f, fn, u, n) => f == e.file && fn == e.func && u == e.use && e.count ≤ n")
+    L.append("")
+    L.append("theorem eofSites_known : eofSites.all eofAllowed = true := by decide")
+    L.append("")
+    L.append("/-- no loader consults `hio_eof` right after a read whose result it does not test (divergence D3) -/")
+    L.append("theorem eofSites_no_untested : eofSites.all (fun e => e.use != .afterUntestedRead) = true := by decide")
+    L.append("")
     L.append("inductive DivKind where")
     L.append("  | eofCall | read8sCall | dataSeekCur | dataSeekSet | dataSeekEnd")
     L.append("  deriving DecidableEq, Repr")
@@ -290,6 +389,8 @@ def generate():
         "read8s_files": sorted({f for ((f, _, k), _) in div_items if k == "read8sCall"}),
         "formats": formats,            # format name -> (loader file, loader id)
         "companion_files": comp_files,
+        "eof_sites": [dict(file=f, func=fn, use=k, count=c) for ((f, fn, k), c) in sorted(eof_sites.items())],
+        "iff_files": iff_files,
     }
 
 
@@ -300,4 +401,6 @@ if __name__ == "__main__":
     print("read8s files:", r["read8s_files"])
     print("data-seek files: %d" % len(r["data_seek_files"]))
     print("companion files:", r["companion_files"])
+    print("eof sites:", r["eof_sites"])
+    print("iff files:", r["iff_files"])
     print("formats: %d" % len(r["formats"]))
